@@ -10,8 +10,8 @@ THEOREMS = ["Mpir.Numth.fib_table_ok", "Mpir.Numth.fib_table_limits_ok", "Mpir.N
             "Mpir.Numth.limbroots_table_ok", "Mpir.Numth.fac_inverse_table_ok", "Mpir.Numth.bin2kk_table_ok",
             "Mpir.Numth.primes_table_ok", "Mpir.Numth.pp_table_ok", "Mpir.Numth.sqres_tables_ok",
             "Mpir.Numth.primorial_table_ok", "Mpir.Numth.fib2_ui_spec", "Mpir.Numth.fib2_ui_spec_pred",
-            "Mpir.Numth.fib_ui_spec_partial", "Mpir.Numth.fib_ui_spec_of_ne_one_mod_four",
-            "Mpir.Numth.lucnum_ui_spec", "Mpir.Numth.lucnum2_ui_spec", "Mpir.Numth.strong_prp_prime",
+            "Mpir.Numth.fib_low_limb_claim", "Mpir.Numth.fib_ui_spec", "Mpir.Numth.lucnum_ui_spec",
+            "Mpir.Numth.lucnum2_ui_spec", "Mpir.Numth.strong_prp_prime",
             "Mpir.Numth.miller_rabin_never_rejects_prime", "Mpir.Numth.isPrime_complete",
             "Mpir.Numth.factorial_odd_part_mul_two_pow", "Mpir.Numth.fac_ui_structure",
             "Mpir.Numth.oddfac_1_spec_below_dsc", "Mpir.Numth.fac_ui_spec_below_dsc",
